@@ -57,6 +57,16 @@ Theorem C02_F1_move_is_refused : override_reassign nwD sD2 (SD 0, MT 5) (Veh 0) 
 Proof. exact F1_move_refused. Qed.
 Print Assumptions C02_F1_move_is_refused.
 
+(** since that repair the restriction on the moved segment is not needed: depot capacities are an invariant of ALL
+    histories of public modifications with valid Path arguments and fit_reassign between different tours (plus
+    set_next_day_transitions with valid transitions), over every network loaded from an instance with non-negative
+    capacities; non-vacuity: DepotFacts2.start_depot_handover_accepted (a segment starting at the provider's start depot
+    moved with the depot to the receiver, accepted, limits hold with equality) *)
+From RS Require Import DepotFacts2.
+Theorem C02_depot_limits_all_valid_histories : stmt_qreachable_depot_limits_loaded.
+Proof. exact qreachable_depot_limits_loaded. Qed.
+Print Assumptions C02_depot_limits_all_valid_histories.
+
 (** END TO END. For every instance that is valid (valid_instance_b) with unsigned limits and capacities, every network
     [load] builds from it, all flow tours that are valid Paths over nodes of the network, and EVERY result of the
     modelled pipeline (from_tours, improve_depots, any trajectory through the enumerated neighbours, any optimiser
